@@ -733,6 +733,13 @@ def fdepsd(
         Dt8 *= 16
         Dt12 *= 64
 
+        # ... and the variances accordingly (`sig2_b` above is twice
+        # the variance of the pseudo-velocity response), so that
+        # var_test ** (b / 2) = di_sig / di_test as documented:
+        sig2_4 = sig2_4 / 2
+        sig2_8 = sig2_8 / 2
+        sig2_12 = sig2_12 / 2
+
     # assemble outputs:
     columns = ["G1", "G2", "G4", "G8", "G12"]
     lcls = locals()
